@@ -28,7 +28,8 @@ ASSUMPTIONS = ["names are free of '/' and ':' and differ from '.' and '..'",
                "find_related(findAll=True) is compared as a set"]
 
 ALPHABET = ["a", "ab", "abc", "A", "b", "a-b", "Ab"]
-TYPES = ["t", "T", "a/b", "a/b/c", "b", "A/B"]
+# (types are compared without regard to case as str.lower() has it: 'straße' is not 'STRASSE')
+TYPES = ["t", "T", "a/b", "a/b/c", "b", "A/B", "straße", "STRASSE"]
 
 
 def forests(n):
@@ -274,7 +275,7 @@ def check_traversals(doc, nodes, fails, ctx_nt, tree_tag):
 
 
 KEYS = [None, "a", "ab", "b", "A"]
-QTYPES = [None, "t", "A/B", "a", "b"]
+QTYPES = [None, "t", "A/B", "a", "b", "straße", "Strasse"]
 
 
 def check_find(doc, nodes, fails, tree_tag, full):
@@ -428,7 +429,32 @@ def random_body(case):
     if not same(got, want) or len(got) != len(nodes):
         fails.append(failure("traverse.itersections", "random tree: document traversal yields %d Sections, "
                              "tree has %d" % (len(got), len(nodes)), from_doc=True, max_depth="None"))
-    return len(nodes) >= 20, ["random:%d" % (len(nodes) // 50 * 50)], fails[:6]
+    classes = ["random:%d" % (len(nodes) // 50 * 50)]
+    # a subtree that was moved after its paths had been looked up is addressed like any other
+    holders = [s for s in nodes if len(s.sections)]
+    if holders and not fails:
+        top = holders[case["picks"][0] % len(holders)]
+        moved = [top] + descendants(top)
+        how = case["picks"][1] % 2
+        doc2 = odml.Document()
+        if how == 0:
+            doc2.append(top)
+            new_doc = doc2
+        else:
+            dests = [s for s in nodes if all(s is not m for m in moved) and top.name not in s.sections
+                     and s is not top.parent]
+            if dests:
+                dests[case["picks"][-1] % len(dests)].append(top)
+                new_doc = doc
+            else:
+                doc2.append(top)
+                new_doc = doc2
+        classes.append("random:subtree_moved_to_%s" % ("another_document" if new_doc is doc2 else "another_branch"))
+        rest = [s for s in nodes if all(s is not m for m in moved)]
+        check_paths(new_doc, moved[:5] + moved[-2:], fails, nt, "random, moved subtree")
+        if rest:
+            check_paths(doc, rest[:4], fails, nt, "random, after a subtree was moved away")
+    return len(nodes) >= 20, classes, fails[:6]
 
 
 def plan(tier):
